@@ -27,20 +27,20 @@ def specRecord : Ref.Outcome → String
   | .timeout => "-"
 
 /-- Spec side of a history. -/
-def specHistory : List String → Ref.St → Bool → List String
+def specHistory (strict : Bool) : List String → Ref.St → Bool → List String
   | [], _, _ => []
   | t :: ts, s, alive =>
-    if !alive then "-" :: specHistory ts s false else
+    if !alive then "-" :: specHistory strict ts s false else
     match readAll t with
-    | none => "-" :: specHistory ts s false
+    | none => "-" :: specHistory strict ts s false
     | some sxs =>
       let es := elabProgram sxs
-      if !Ref.wfList [] es then "-" :: specHistory ts s false
+      if !Ref.wfList { strict } es then "-" :: specHistory strict ts s false
       else
         let (o, s') := Ref.runProgram refFuel es s
         match o with
-        | .timeout => "-" :: specHistory ts s false
-        | _ => specRecord o :: specHistory ts s' true
+        | .timeout => "-" :: specHistory strict ts s false
+        | _ => specRecord o :: specHistory strict ts s' true
 
 def modelRecord (o : VM.Outcome) : String :=
   match o with
@@ -58,8 +58,12 @@ def modelHistory : List String → VM.St → Bool → List String
       modelRecord o :: modelHistory ts s' alive'
 
 def handle (toks : List String) : String :=
+  -- `+argbrk` as the first token: judge with the non-strict domain (hand-written ops only)
+  let (strict, toks) := match toks with
+    | "+argbrk" :: rest => (false, rest)
+    | _ => (true, toks)
   let m := " ;; ".intercalate (modelHistory toks VM.initSt true)
-  let s := " ;; ".intercalate (specHistory toks Ref.initSt true)
+  let s := " ;; ".intercalate (specHistory strict toks Ref.initSt true)
   s!"{m}\t{s}"
 
 end ZygoVerif.Driver.Eval
